@@ -208,15 +208,18 @@ R_UNUSED2 = Rule('R10', r'\b_: (?:(Vec<model::Value>)|(&mut model::Context))', l
 R_UNUSED = Rule('R10', r'\b_: (?:(dom::XmlNode)|(&mut model::Context))', lambda m: ('_node: ' + m.group(1)) if m.group(1) else ('_context: ' + m.group(2)), 'wildcard parameter gets a name (no runtime meaning)')
 
 
-def build():
+def build(repo=None):
+    from units.func_lib import table_arities, arity_req
+    from vf import unit as U
+    ar = table_arities(repo or U.REPO)   # the argument counts func::table() lets through, read on every run
     fns = {}
     fns['string_length'] = Fn(
         FF, None, 'string_length', props=['C09'], safety_props=['C09'], label='xpath::func::string_length',
-        sig_rules=[R_UNUSED],
+        sig_rules=[R_UNUSED], requires=[arity_req(ar['string_length'])],
         rules=[R_NODEARG, R_TOSTRING, R_ASF64, R_COUNT],
         ensures=[('C09:counts_characters', 'args@.len() >= 1 && r is Ok ==> r->Ok_0 is Number && r->Ok_0->Number_0 == f64_of_nat(string_of(args@[0]).len())')])
     fns['id'] = Fn(
-        FF, None, 'id', props=['C06'], safety_props=['C06'], label='xpath::func::id', sig_rules=[R_UNUSED2],
+        FF, None, 'id', props=['C06'], safety_props=['C06'], label='xpath::func::id', sig_rules=[R_UNUSED2], requires=[arity_req(ar['id']).__class__((arity_req(ar['id'])[0], arity_req(ar['id'])[1].replace('args@', '_args@')))],
         rules=[Rule('R21', r'unimplemented!\(\)', 'shim_unimplemented()', 'panic site -> call of a function with `requires false`')],
         ensures=[('C06:an_error_or_a_node_set', 'r is Ok ==> r->Ok_0 is Node')])
     fns['substring'] = Fn(
@@ -229,10 +232,10 @@ def build():
                   'args@.len() == 2 && r is Ok ==> r->Ok_0 is Text && ({ let s = string_of(args@[0]); let (lo, hi) = spec_range(s.len(), number_of(args@[1]), None::<f64>); r->Ok_0->Text_0@ == s.subrange(lo, hi) })'),
                  ('C09:selects_the_characters_of_the_range_with_length',
                   'args@.len() == 3 && r is Ok ==> r->Ok_0 is Text && ({ let s = string_of(args@[0]); let (lo, hi) = spec_range(s.len(), number_of(args@[1]), Some(number_of(args@[2]))); r->Ok_0->Text_0@ == s.subrange(lo, hi) })')],
-        requires=[('arity_checked_by_the_function_table', '2 <= args@.len() <= 3')])
+        requires=[arity_req(ar['substring'])])
     fns['translate'] = Fn(
         FF, None, 'translate', props=['C09'], safety_props=['C06'], label='xpath::func::translate', sig_rules=[R_UNUSED],
-        requires=[('arity_checked_by_the_function_table', 'args@.len() == 3')],
+        requires=[arity_req(ar['translate'])],
         rules=[R_TOSTRING,
                Rule('R40', r'let mut r = String::new\(\);', 'let mut r = shim_string_new();', 'String::new -> shim'),
                Rule('R40', r'for ch in s1\.chars\(\) \{', 'for ch in __it: shim_chars_vec(&s1) /*@loop*/ {', 'for over str::chars() -> for over the shim-built Vec<char>'),
@@ -248,4 +251,4 @@ def build():
 
 
 TEMPLATE, FNS = build()
-UNIT = dict(name='func_strings', template=TEMPLATE, fns=FNS, props=['C09'])   # id(): C06 (per-function props)
+UNIT = dict(name='func_strings', template=TEMPLATE, fns=FNS, props=['C09'], build=build)   # id(): C06 (per-function props)
